@@ -95,6 +95,12 @@ def showOut : Out → String
   | .signed .err => "G:err"
   | .forwarded b => "F:" ++ hexOrDash b
 
+/-- the harness key with an RSA key pair -/
+def rsaKey (k : Nat) : Bool := k == 3
+
+/-- operations that carry signature flags are run through `stepSignFlags` -/
+def flaggedOp (s : String) : Bool := s.startsWith "sign256=" || s.startsWith "sign512="
+
 def parseOp (orc : List (String × CertInfo)) (s : String) : Option (Option Op) :=
   -- `none` inside = sleep (no model step)
   let (op, arg) := match s.splitOn "=" with
@@ -104,7 +110,7 @@ def parseOp (orc : List (String × CertInfo)) (s : String) : Option (Option Op) 
   match op with
   | "list" => some (some .list)
   | "signers" => some (some .signers)
-  | "sign" => (parseBlob orc arg).map fun b => some (.sign b)
+  | "sign" | "sign256" | "sign512" => (parseBlob orc arg).map fun b => some (.sign b)
   | "add" => (parseIdent orc arg).map fun i => some (.add i)
   | "addhard" =>
     match arg.splitOn "=" with
@@ -140,7 +146,11 @@ def runHistCtx (noUp : Bool) (cf : String) (init : List Ident) (ops : List (Opti
       | [], _ => ([], [])
       | (none, _) :: r, now :: ts => let (a, b) := go s r ts; ("slept" :: a, some ⟨none, now, s⟩ :: b)
       | (some op, fs) :: r, now :: ts =>
-        let (s', o) := Shim.step s now (faultsOf fs) op
+        -- a fault specification that starts with `flags|` marks a sign request with signature flags
+        let (flagged, fs) := if fs.startsWith "flags|" then (true, (fs.drop 6).toString) else (false, fs)
+        let (s', o) := match flagged, op with
+          | true, .sign b => Shim.stepSignFlags rsaKey s now (faultsOf fs) b
+          | _, _ => Shim.step s now (faultsOf fs) op
         let (a, b) := go s' r ts
         ((showOut o ++ "/" ++ showU s'.u) :: a, some ⟨some op, now, s⟩ :: b)
       | _, [] => (["protocol-error"], [none])
@@ -220,8 +230,8 @@ def handleShim (op : String) (args : List String) (impl : Option (List String)) 
       let opsL := (opsS.splitOn ";").filter (· != "")
       let ops := opsL.mapM fun (o : String) =>
         match o.splitOn "!" with
-        | [a] => (parseOp orc a).map fun x => (x, "-")
-        | [a, f] => (parseOp orc a).map fun x => (x, f)
+        | [a] => (parseOp orc a).map fun x => (x, if flaggedOp a then "flags|-" else "-")
+        | [a, f] => (parseOp orc a).map fun x => (x, if flaggedOp a then "flags|" ++ f else f)
         | _ => none
       let times := if timesS == "-" then some [] else (timesS.splitOn ",").mapM String.toNat?
       match init, ops, times with
